@@ -327,6 +327,8 @@ class Rules:
         if 'R14' not in skip:
             text = self.r_decl_in_while(text)
             text = self.r_decl_in_if(text)
+        if 'R10' not in skip:
+            text = self.r_range_for(text)
         if 'R19' not in skip:
             text = self.r_forever(text)
         if 'R17' not in skip:
@@ -405,6 +407,39 @@ class Rules:
         self._count('R14', n_f)
         return text
 
+    def r_range_for(self, text):
+        # R10: for (auto v : E) S  ->  for (size_t _kN = 0; _kN < VP_LEN(E); ++_kN) { __auto_type v = VP_AT(E, _kN); S }
+        n_f = 0
+        pos = 0
+        rx = re.compile(r'\bfor\s*\(')
+        while True:
+            m = rx.search(text, pos)
+            if not m:
+                break
+            po = m.end() - 1
+            pc = match_close(text, po, '(', ')')
+            inner = text[po + 1:pc]
+            mm = re.match(r'\s*(?:const\s+)?(?:auto|__auto_type|int|size_t)\s*&{0,2}\s*([A-Za-z_]\w*)\s*:(?!:)\s*(.+)$', inner, re.S)
+            if not mm or ';' in inner:
+                pos = pc
+                continue
+            var, seq = mm.group(1), mm.group(2).strip()
+            e = self._stmt_end(text, pc + 1)
+            k = pc + 1
+            while text[k] in ' \t\n':
+                k += 1
+            body = text[k:e]
+            if body.startswith('{'):
+                body = body[1:-1]
+            kv = '_k%d' % n_f
+            new = ('for (size_t %s = 0; %s < VP_LEN(%s); ++%s) { __auto_type %s = VP_AT(%s, %s); %s }'
+                   % (kv, kv, seq, kv, var, seq, kv, body))
+            text = text[:m.start()] + new + text[e:]
+            n_f += 1
+            pos = m.start() + 10
+        self._count('R10', n_f)
+        return text
+
     def r_forever(self, text):
         # R19: for (init;;) B -> { init; while (vp_one) B }   (only when init has no ';' inside parens)
         n_f = 0
@@ -434,6 +469,21 @@ class Rules:
                 pos = pc
         self._count('R19', n_f)
         return text
+
+
+def index_to_call(text, name, fn):
+    """R11: name[expr] -> fn(expr) (bracket matched, innermost first by repeated scanning)"""
+    n_f = 0
+    rx = re.compile(r'(?<![\w.>])%s\s*\[' % re.escape(name))
+    while True:
+        m = rx.search(text)
+        if not m:
+            break
+        po = m.end() - 1
+        pc = match_close(text, po, '[', ']')
+        text = text[:m.start()] + fn + '(' + text[po + 1:pc] + ')' + text[pc + 1:]
+        n_f += 1
+    return text, n_f
 
 
 def split_top(s, sep):
@@ -647,7 +697,7 @@ class Fn:
     def __init__(self, file, anchor, proto, contract='', loops=None, subst=(), ordinal=0,
                  nmatches=None, skip=(), pre='', post='', block_end=None, signal_points=False,
                  label=None, inst=None, wrap_body=True, expect_fired=None, drop_init=False, defines=None,
-                 one_iteration=None):
+                 one_iteration=None, index_calls=None):
         self.file = file
         self.anchor = anchor
         self.proto = proto
@@ -668,6 +718,7 @@ class Fn:
         self.drop_init = drop_init
         self.defines = defines or {}
         self.one_iteration = one_iteration
+        self.index_calls = index_calls or {}
         self.info = None
 
     def cname(self):
@@ -701,6 +752,9 @@ class Fn:
                                          'at least 1' if expect is None else expect))
             sub_report.append({'pattern': pat, 'replacement': repl if isinstance(repl, str) else '<generated>', 'fired': n})
         body = rules.apply(body, self.skip)
+        for nm, fnm in self.index_calls.items():
+            body, n_ix = index_to_call(body, nm, fnm)
+            rules._count('R11', n_ix)
         for r, cnt in self.expect_fired.items():
             if rules.fired.get(r, 0) != cnt:
                 raise ExtractionError("%s: rule %s fired %d times, spec expects %d"
